@@ -3034,6 +3034,7 @@ int confserver_cb(struct gconffile **cf, void *arg, char *block, char *opt, char
         conf->secret_len = resconf->secret_len;
         conf->blockingstartup = resconf->blockingstartup;
         conf->type = resconf->type;
+        conf->pdef = resconf->pdef;
         conf->sni = resconf->sni;
     } else {
         conf->certnamecheck = 1;
